@@ -466,6 +466,7 @@ Proof.
       destruct (func_info P f) as [fi|]; [|discriminate].
       destruct (fi_native fi).
       - destruct (find_native (p_natives P) f) as [nt|]; [|discriminate].
+        destruct (n_func nt); cbn [negb] in H; [|discriminate].
         destruct (_ <? nargs); [discriminate | congruence].
       - destruct (_ <? nargs); [discriminate | congruence]. }
     subst s'. split; [exact Hok|]. split; [lia|]. intros _. split; [reflexivity|]. split; [|exact I].
@@ -544,7 +545,8 @@ Proof.
       [injection H as <-; discriminate|].
     destruct (func_info P f) as [fi|]; [|injection H as <-; discriminate].
     destruct (fi_native fi).
-    + destruct (find_native (p_natives P) f) as [nt|]; [|discriminate].
+    + destruct (find_native (p_natives P) f) as [nt|]; [|injection H as <-; discriminate].
+      destruct (n_func nt); cbn [negb] in H; [|injection H as <-; discriminate].
       destruct (_ <? nargs); [injection H as <-; discriminate | discriminate].
     + destruct (_ <? nargs); [injection H as <-; discriminate | discriminate].
   - destruct (func_info P f) as [fi|] eqn:Efi; [|discriminate].
